@@ -249,9 +249,15 @@ let handle (fields : string list) : string * string =
     (* the (type, status) sequence of the responses is what the specification's run of the same packets gives *)
     let statuses evs = List.filter_map (function Resp (ty, st, _) -> Some (int_of_n ty, int_of_n st) | _ -> None) evs in
     let status_ok = (statuses ievs = statuses (Model.run cfg items)) in
+    (* what the policy callbacks were asked about is the reference decoding of what the client sent *)
+    let asked evs = List.filter_map (function
+        | AskCookie (c, _) -> Some ("cookie", c) | AskName (c, _) -> Some ("name", c) | AskHost (c, _) -> Some ("host", c)
+        | _ -> None) evs in
+    let asked_ok = (asked ievs = asked (Model.run cfg items)) in
     let verdict = match bad with
       | [] -> (match denial_ok ievs with
-          | None -> if status_ok then "ok" else "fail:response-status-differs-from-specification"
+          | None -> if not asked_ok then "fail:checked-value-is-not-the-value-the-client-sent"
+            else if status_ok then "ok" else "fail:response-status-differs-from-specification"
           | Some w -> "fail:" ^ w)
       | Resp (ty, _, _) :: _ -> Printf.sprintf "fail:malformed-or-untruthful-response-type-%d" (int_of_n ty)
       | _ -> "fail:response" in
